@@ -202,6 +202,12 @@ func (r *c6Run) buildDest() io.Writer {
 		sw1 := zerolog.SyncWriter(a)
 		r.extraDest = zerolog.SyncWriter(sw1)
 		return sw1
+	case 9:
+		// a TriggerLevelWriter that holds nothing back (every level is above
+		// ConditionalLevel): one more mutex-protected wrapper on the path
+		return &zerolog.TriggerLevelWriter{Writer: b, ConditionalLevel: zerolog.Level(-128), TriggerLevel: zerolog.Level(-128)}
+	case 10:
+		return &zerolog.FilteredLevelWriter{Writer: b, Level: zerolog.DebugLevel}
 	case 8:
 		return zerolog.NewConsoleWriter(func(w *zerolog.ConsoleWriter) {
 			w.Out = a
@@ -272,7 +278,7 @@ func (c06World) Run(prop string, ch *zsim.Choices, trace bool) *RunResult {
 		zerolog.ErrorHandler = func(err error) { r.errCalls++ }
 		r.sinks[0] = &c6Sink{r: r, idx: 0}
 		r.sinks[1] = &c6Sink{r: r, idx: 1}
-		r.dest = ch.Weighted(4, 3, 2, 2, 1, 1, 1, 2, 2)
+		r.dest = ch.Weighted(4, 3, 2, 2, 1, 1, 1, 2, 2, 1, 1)
 		r.sinkBeh = ch.Weighted(4, 2, 2)
 		// logger derivations are drawn once and built twice: one set of loggers and
 		// destination wrappers for the reference (solo) runs, a fresh identical set
@@ -290,7 +296,7 @@ func (c06World) Run(prop string, ch *zsim.Choices, trace bool) *RunResult {
 		}
 		nl := ch.Intn(4)
 		for i := 0; i < nl; i++ {
-			sp := lspec{parent: ch.Intn(nLog), kind: ch.Intn(5), name: fmt.Sprintf("h%d", i)}
+			sp := lspec{parent: ch.Intn(nLog), kind: ch.Intn(7), name: fmt.Sprintf("h%d", i)}
 			if sp.kind <= 1 {
 				sp.ops = genOps(ch, 1+ch.Intn(3), 1, fmt.Sprintf("c%d_", i))
 			}
@@ -316,6 +322,12 @@ func (c06World) Run(prop string, ch *zsim.Choices, trace bool) *RunResult {
 					r.loggers = append(r.loggers, parent.Level(zerolog.WarnLevel))
 				case 3:
 					r.loggers = append(r.loggers, parent.Hook(c6Hook{sp.name}))
+				case 5:
+					r.loggers = append(r.loggers, parent.With().Timestamp().Logger())
+				case 6:
+					// the caller field names the finalizing call site, which is the same
+					// line of this file in the reference run and in the concurrent run
+					r.loggers = append(r.loggers, parent.With().Caller().Logger())
 				}
 			}
 			zlog.Logger = root.With().Str("global", "g").Logger()
